@@ -10,21 +10,89 @@ TXS = "storage::commands::transactions::TransactionState."
 QUEUE_TY = "std::collections::VecDeque<std::vec::Vec<protocol::resp::RespFrame>>"
 
 
+CONTROL = ("MULTI", "EXEC", "DISCARD", "WATCH", "UNWATCH")     # the commands Redis never queues
+QUEUED_FIELD_SUFFIX = "TransactionState.queued_commands"
+
+
+def queue_functions(ctx):
+    """functions that append to a connection's queued_commands"""
+    def compute():
+        out = set()
+        for fn, b in ctx.prog.bodies.items():
+            if "::tests::" in fn:
+                continue
+            for i, t in b.calls():
+                if re.search(r"VecDeque::<.*>::push_back$", t["f"] or "") and t["a"] and not op_is_const(t["a"][0]):
+                    if any(f_.endswith(QUEUED_FIELD_SUFFIX) for f_ in prov.operand_origins(b, t["a"][0]).fields):
+                        out.add(fn)
+        return out
+    return ctx.memo("queue_functions", compute)
+
+
+def queue_decision(ctx, b):
+    """where process_frame decides `queue it`: (queue site block, [decision switch blocks, outermost
+    first], successor of the innermost decision that leads to the queue site).  The decision is
+    found by data, not by name: a bool switch that dominates the queue site, has a successor
+    that cannot reach it, and whose condition derives from the connection's in_transaction flag
+    or from a bool-returning call on the command name (should_queue_command / is_control_command,
+    either sense)."""
+    qf = queue_functions(ctx)
+    qs = [i for i, t in b.calls() if (ctx.cg.reach([callee(t)] + list(t.get("clos") or [])) & qf) or callee(t) in qf]
+    if not qs:
+        return None
+    q = qs[0]
+    can = cfg.bwd(b, [q])
+    # the state read: a with_connection whose closure reads in_transaction
+    def reads_flag(cb):
+        for bb in cb.bbs:
+            for st in bb["s"]:
+                if st["k"] == "=" and st["r"]["k"] in ("use", "ref"):
+                    pl = op_place(st["r"]["o"]) if st["r"]["k"] == "use" else st["r"]["p"]
+                    if pl and any(isinstance(e, dict) and str(e.get("f", "")).endswith("TransactionState.in_transaction") for e in pl["p"]):
+                        return True
+            t = bb["t"]
+            if t["k"] == "switch" and not op_is_const(t["d"]) and any(isinstance(e, dict) and str(e.get("f", "")).endswith("TransactionState.in_transaction") for e in op_place(t["d"])["p"]):
+                return True
+        return False
+    reads = [i for i, t in b.calls() if any(ctx.prog.bodies.get(c) is not None and reads_flag(ctx.prog.bodies[c]) for c in (t.get("clos") or [])) and cfg.dominates(b, i, q)]
+    tests = {t["sw"] for t in shared.str_tests(b)}
+    ds = []
+    for x, bb in enumerate(b.bbs):
+        t = bb["t"]
+        if t["k"] != "switch" or x in tests or op_is_const(t["d"]) or not cfg.dominates(b, x, q) or x == q:
+            continue
+        pl = op_place(t["d"])
+        if pl["p"] or b.locals[pl["l"]] != "bool":
+            continue
+        succ = set(b.succs(x))
+        if not (succ - can) or not (succ & can):
+            continue
+        P = prov.origins(b, pl["l"], deep=True)
+        from_state = any(r[0] == "call" and r[2] in reads for r in P.roots) or b.names.get(pl["l"]) == "in_transaction" or \
+            any(b.names.get(op_local(st["r"]["o"])) == "in_transaction" for st in bb["s"] if st["k"] == "=" and st["l"]["l"] == pl["l"] and st["r"]["k"] == "use" and not op_is_const(st["r"]["o"]))
+        from_class = any(r[0] == "call" and r[1].startswith("storage::commands::transactions::") and ctx.prog.bodies.get(callee(b.term(r[2]))) is not None and ctx.prog.bodies[callee(b.term(r[2]))].locals[0] == "bool" for r in P.roots)
+        if from_state or from_class:
+            ds.append(x)
+    if not ds:
+        return None
+    order = sorted(ds, key=lambda x: sum(1 for y in ds if cfg.dominates(b, y, x)))
+    inner = order[-1]
+    lead = [y for y in b.succs(inner) if y in can]
+    return q, order, (lead[0] if lead else None), reads
+
+
 def rule_queue(ctx, R):
     b = ctx.prog.need(PF)
-    # the queue test: call to should_queue_command, result switch; true edge = queued
-    q = [(i, t) for i, t in b.calls() if callee(t) == "storage::commands::transactions::should_queue_command"]
-    if not q:
-        R.inst(PF, "queue-test"); R.finding(PF, "queue-test:missing", "no should_queue_command test in process_frame", b.loc()); return
-    qi, qt = q[0]
-    sw = shared._follow_to_switch(b, qt["t"], qt["d"]["l"])
-    if sw is None:
-        R.broken.append("switch on should_queue_command result not found"); return
-    queued_t = sw[1]["o"]
+    qd = queue_decision(ctx, b)
+    if qd is None:
+        R.inst(PF, "queue-test"); R.finding(PF, "queue-test:missing", "no in_transaction / command-class decision guarding a queue step found in process_frame", b.loc()); return
+    qi, decisions, queued_t, _reads = qd
+    sw = (decisions[-1], b.term(decisions[-1]))
+    if queued_t is None:
+        R.broken.append("queued edge of the queue decision not found"); return
     queued = cfg.fwd(b, [queued_t])
-    # the in_transaction test guarding it
     tests = shared.str_tests(b)
-    ctrl = set(shared.str_table(ctx.prog.need("storage::commands::transactions::should_queue_command")))
+    ctrl = set(CONTROL)
     R.floor("control_commands", len(ctrl))
     ctrl_region = set()
     for n in ctrl:
@@ -50,11 +118,8 @@ def rule_queue(ctx, R):
         if cal == ENGINE + "nothing":
             continue
         n += 1
-        dom = cfg.dominates(b, qi, i) or cfg.dominates(b, sw[0], i)
-        # sites on the path where in_transaction is false and the test is skipped are fine only if
-        # they are dominated by the block that tests in_transaction
-        intx = in_transaction_switch(b, qi)
-        dom = dom or (intx is not None and cfg.dominates(b, intx, i))
+        # after the decision: dominated by (the outermost switch of) the queue decision
+        dom = any(cfg.dominates(b, d_, i) for d_ in decisions)
         cmds = sorted(names_by_block.get(i, ()))
         R.inst(PF, "effect:" + short, {"call": short, "at": b.loc(i), "dominated_by_queue_test": dom, "commands": cmds[:4]})
         if i in queued and cal != "network::server::ShardedConnections::with_connection":
@@ -65,7 +130,7 @@ def rule_queue(ctx, R):
                       "%s (line %d, commands %s) runs before the in_transaction/should_queue_command test: inside MULTI it takes effect immediately instead of being queued" % (short, b.bb_line(i), cmds[:3]), b.loc(i))
     R.floor("effect_sites_in_process_frame", n)
     # the queued edge must only queue: it reaches queue_command and no other privileged call
-    qc = [x for x in queued if b.term(x)["k"] == "call" and "storage::commands::transactions::queue_command" in ctx.cg.reach([callee(b.term(x))] + list(b.term(x)["clos"]))]
+    qc = [x for x in queued if b.term(x)["k"] == "call" and (ctx.cg.reach([callee(b.term(x))] + list(b.term(x)["clos"])) & queue_functions(ctx))]
     R.inst(PF, "queued-edge", {"reaches_queue_command": bool(qc)})
     if not qc:
         R.finding(PF, "queued-edge:no-queue_command", "the queued edge does not reach queue_command", b.loc(queued_t))
@@ -384,6 +449,16 @@ def key_params_of_site(b, i, kind, f):
     if kind == "map":
         if re.search(SHARD_MAP + r"(clear|retain|drain)\b", f):
             return None     # whole-shard
+        if "hash_map::" in f and t["a"] and not op_is_const(t["a"][0]):
+            # Entry / VacantEntry / OccupiedEntry method: the key is the one handed to entry()
+            P = prov.operand_origins(b, t["a"][0], deep=True)
+            ks = set()
+            sites_ = [r[2] for r in P.roots if r[0] == "call" and re.search(SHARD_MAP + r"entry\b", r[1])] + [bb_ for f_, bb_ in P.via if re.search(SHARD_MAP + r"entry\b", f_)]
+            for x_ in sites_:
+                tt = b.term(x_)
+                if len(tt["a"]) >= 2:
+                    ks |= _byte_params(b, prov.operand_origins(b, tt["a"][1], deep=True).params())
+            return ks
         if len(t["a"]) >= 2:
             return _byte_params(b, prov.operand_origins(b, t["a"][1], deep=True).params())
         return set()
@@ -412,6 +487,22 @@ def rule_w1(ctx, R):
                 ks = _byte_params(b, MP.params())
                 iterated = MP.has_call(SHARD_MAP + r"(iter|keys|iter_mut|drain)\b") or MP.has_call(r"std::collections::HashMap::<std::vec::Vec<u8>, std::time::Instant>::(iter|keys)")
                 marks.append((i, ks, iterated))
+        # `data.keys().for_each(|k| guard.mark_modified(k))`: the bump sits in a closure driven by an
+        # iterator over the shard's keys
+        for i, t in b.calls():
+            if not t.get("clos") or not t["a"] or op_is_const(t["a"][0]):
+                continue
+            for c in t["clos"]:
+                cb = ctx.prog.bodies.get(c)
+                if cb is None:
+                    continue
+                for j, tj in cb.calls():
+                    if callee(tj) == MARK and len(tj["a"]) >= 2 and not op_is_const(tj["a"][1]):
+                        kp = prov.operand_origins(cb, tj["a"][1], deep=True)
+                        if any(r[0] == "param" and r[1] >= 2 for r in kp.roots):
+                            SP = prov.operand_origins(b, t["a"][0], deep=True)
+                            if SP.has_call(SHARD_MAP + r"(iter|keys|iter_mut|drain)\b"):
+                                marks.append((i, set(), True))
         nm += 1
         allsites = [(i, k, f) for (i, k, f) in sites] + [(i, "store", "store") for (i, st) in stores]
         seen = set()
@@ -633,13 +724,12 @@ def rule_norefuse(ctx, R):
     connection-state read is dominated by the in_transaction/queue test, or lies in a control
     command's arm or in the authentication refusal."""
     b = ctx.prog.need(PF)
-    q = [(i, t) for i, t in b.calls() if callee(t) == "storage::commands::transactions::should_queue_command"]
-    if not q:
-        R.broken.append("queue test not found"); return
-    qi = q[0][0]
-    intx = in_transaction_switch(b, qi)
+    qd = queue_decision(ctx, b)
+    if qd is None:
+        R.broken.append("queue decision not found"); return
+    qi, decisions, _qt, _reads = qd
     tests = shared.str_tests(b)
-    ctrl = set(shared.str_table(ctx.prog.need("storage::commands::transactions::should_queue_command")))
+    ctrl = set(CONTROL)
     ctrl_region = set()
     for n in ctrl:
         ctrl_region |= shared.arm_region(b, tests, n)
@@ -677,7 +767,7 @@ def rule_norefuse(ctx, R):
         if callee(t) != "protocol::resp::RespFrame::error" or i not in after:
             continue
         n += 1
-        dom = cfg.dominates(b, qi, i) or (intx is not None and cfg.dominates(b, intx, i))
+        dom = any(cfg.dominates(b, d_, i) for d_ in decisions)
         # an error built inside the arm of one named command (e.g. MONITOR's arity error) belongs
         # to R-TX-QUEUE's question whether that command may run before the queue test at all
         in_named_arm = any(i in cfg.dom_set(b, t_["true"]) for t_ in tests)
